@@ -1805,6 +1805,20 @@ def m_bm_kw_get(self, st, kw, pos, kws, k):
     raise Untranslated('k.get(%r)' % (key.py if isinstance(key, VStr) else key,))
 
 
+def m_bm_kw_setdefault(self, st, kw, pos, kws, k):
+    """k.setdefault(name, value) on the keyword dictionary held in a local: keeps an existing entry"""
+    key, val = pos[0], pos[1]
+    if isinstance(key, VStr) and key.py == 'innermost-pkt-pos':
+        x, c = self.as_int(val)
+        newk = kw_with(kw.z, has_ipp=z3.BoolVal(True), ipp=z3.If(T.Kw.has_ipp(kw.z), T.Kw.ipp(kw.z), x))
+        # rebind every local that holds this dictionary (value semantics of **k: it is a local of this activation)
+        for nm, v in list(st.loc.items()):
+            if isinstance(v, VKw) and v.z.eq(kw.z):
+                st.loc[nm] = VKw(newk)
+        return k(st, VInt(z3.If(T.Kw.has_ipp(kw.z), T.Kw.ipp(kw.z), x)))
+    raise Untranslated('k.setdefault(%r)' % (key.py if isinstance(key, VStr) else key,))
+
+
 def m_bm_dyn_clone(self, st, obj, pos, kws, k):
     """x.clone() on a dynamically typed value: only Prototype has a clone attribute among the classes under
     contract; the receiver being a Prototype is an obligation, the call goes through the clone bodies' contracts"""
